@@ -121,7 +121,7 @@ def operand(rng, *, min_rank=0, max_rank=4, dtypes=DT_ALL, fills=("zero", "zero"
 
 
 def _is_fill(d, f):
-    from sparse.numba_backend._utils import equivalent
+    from impl import equivalent
 
     return np.asarray(equivalent(d, f)) if d.size else np.zeros(d.shape, dtype=bool)
 
